@@ -160,7 +160,8 @@ def fault_cases(R, rng, tier):
 
 
 def mutate(rng, data):
-    k = rng.choice(["trunc", "flip", "insert", "nul", "deep", "bom", "cr", "surrogate", "latin", "longline", "tabs", "random"])
+    k = rng.choice(["trunc", "flip", "insert", "nul", "deep", "bom", "cr", "surrogate", "latin", "longline", "tabs", "random",
+                    "cookie_undecodable", "cookie_unknown", "bom_cookie"])
     if k == "trunc":
         return data[:rng.randint(0, max(0, len(data) - 1))], k
     if k == "flip" and data:
@@ -182,6 +183,14 @@ def mutate(rng, data):
         return b"password = '\\ud800'\nx = '\\udfff' + y\nassert x\n", k
     if k == "latin":
         return b"# -*- coding: latin-1 -*-\ns = '\xe9'\nassert s\n", k
+    if k == "cookie_undecodable":
+        # the declared codec cannot decode a byte the tokenizer lets through: ast.parse fails without a line
+        codec, byte = rng.choice([("ascii", b"\xe9"), ("cp1252", b"\x81"), ("utf-8", b"\xff"), ("cp1252", b"\x8d"), ("iso-8859-7", b"\xae"), ("shift_jis", b"\xfd")])
+        return b"# -*- coding: " + codec.encode() + b" -*-\ns = '" + byte + b"'\nassert s\n", k
+    if k == "cookie_unknown":
+        return b"# coding: " + rng.choice([b"zz-unknown", b"rot13", b"hex", b"utf-16", b"punycode"]) + b"\nassert x\n", k
+    if k == "bom_cookie":
+        return b"\xef\xbb\xbf# coding: " + rng.choice([b"latin-1", b"utf-8", b"ascii"]) + b"\ns = '\xc3\xa9'\nassert s\n", k
     if k == "longline":
         return b"x = '" + b"a" * rng.choice([1000, 200000]) + b"'\nassert x\n", k
     if k == "tabs":
@@ -240,6 +249,47 @@ def byte_cases(R, rng, tier):
             R.violations.append({"what": "a healthy file was skipped", "input": inp, "observed": j["errors"], "signature": None})
 
 
+def many_files(R, rng, tier):
+    """More files than the progress-bar threshold, default verbosity, one faulty file: every healthy file keeps its finding."""
+    import shutil
+    d = os.path.join(impl.scratch(), "many")
+    for n, kinds in ((55, ["syntax", "cookie"]), (12, ["syntax"])) if tier == "quick" else ((55, ["syntax", "cookie", "nul", "dir"]), (120, ["syntax"]), (51, ["syntax"]), (12, ["syntax"])):
+        for kind in kinds:
+            for pos in ([n // 2] if tier == "quick" else [0, n // 2, n - 2]):
+                shutil.rmtree(d, ignore_errors=True)
+                os.makedirs(d)
+                for i in range(n):
+                    p = os.path.join(d, "m%03d.py" % i)
+                    if i == pos:
+                        data = {"syntax": b"def f(:\n", "cookie": b"# coding: ascii\ns = '\xe9'\n", "nul": b"x = 1\x00\n", "dir": b"x = 1\n"}[kind]
+                        open(p, "wb").write(data)
+                    else:
+                        open(p, "w").write("assert zz_%d\n" % i)
+                for quiet in ([], ["-q"]):
+                    r = climain.run_main(quiet + ["-r", "-f", "json", "--exit-zero", d])
+                    R.case(("many", n, kind, pos, bool(quiet)), sample={"files": n, "faulty": pos, "kind": kind, "quiet": bool(quiet), "exit": r["exit"]})
+                    R.count("many-files:%d" % n)
+                    inp = {"files": n, "faulty_position": pos, "faulty_kind": kind, "options": quiet + ["-r", "-f", "json", "--exit-zero"]}
+                    if r["exception"]:
+                        R.violations.append({"what": "no report: %s escapes a scan of %d files" % (r["exception"], n), "input": inp,
+                                             "observed": (r["traceback"] or "")[-400:], "signature": None})
+                        continue
+                    try:
+                        j = json.loads(r["stdout"][r["stdout"].index("{"):])
+                    except Exception as e:
+                        R.violations.append({"what": "report is not valid JSON (%s)" % e, "input": inp, "observed": r["stdout"][:300], "signature": None})
+                        continue
+                    have = {os.path.basename(x["filename"]) for x in j["results"] if x["test_id"] == "B101"}
+                    want = {"m%03d.py" % i for i in range(n) if i != pos}
+                    if have != want:
+                        R.violations.append({"what": "a faulty file among %d changed what is reported for other files: findings missing for %s"
+                                                     % (n, sorted(want - have)[:4]), "input": inp, "observed": sorted(want - have)[:10], "signature": None})
+                    sk = {os.path.basename(e["filename"]) for e in j["errors"]}
+                    if kind != "dir" and sk != {"m%03d.py" % pos}:
+                        R.violations.append({"what": "skipped files are %s, expected exactly the faulty one" % sorted(sk), "input": inp, "observed": j["errors"], "signature": None})
+    shutil.rmtree(d, ignore_errors=True)
+
+
 def run(R, replay=None):
     rng = random.Random(R.seed)
     for f in core.gen():
@@ -252,7 +302,9 @@ def run(R, replay=None):
               "matrix that the statement admits x every position of the faulty file among N healthy files, injected into the real "
               "manager and compared with the Accounting model and with the statement; plus mutated / truncated / random byte files "
               "(encoding and newline pathologies, NULs, deep nesting, long lines, lone surrogates) between two healthy files through "
-              "main() with JSON output; non-trivial = every case")
+              "main() with JSON output; directories of 12-120 files (below and above the progress-bar threshold, quiet and default "
+              "verbosity) with one faulty file; non-trivial = every case")
     fault_cases(R, rng, R.tier)
     byte_cases(R, rng, R.tier)
+    many_files(R, rng, R.tier)
     R.disagreements_checked = R.evaluations
